@@ -12,6 +12,12 @@ t = open("/verif/tools/seed_prompt.txt").read()
 t = (t.replace("{WT}", wt).replace("{NAME}", name).replace("{PID}", pid).replace("{TITLE}", p["title"])
       .replace("{STATEMENT}", p["statement"]).replace("{QUANT}", p["quantifier"]["text"])
       .replace("{FILES}", ", ".join(files)).replace("{TESTDIRS}", testdirs or "/".join(dirs[:1])))
+import glob
+earlier = []
+for f in sorted(glob.glob("/verif/seeded/%s-*/meta.json" % pid)):
+    earlier.append("  - " + json.load(open(f)).get("change", ""))
+if earlier:
+    t = t.replace("Think about which inputs the existing tests use", "EARLIER changes other people already made for this property (do NOT repeat their code site or mechanism; pick a different function, a different input dimension, a different kind of slip):\n" + "\n".join(earlier) + "\nThink about which inputs the existing tests use")
 os.makedirs("/tmp/seedprompts", exist_ok=True)
 open("/tmp/seedprompts/%s.txt" % name, "w").write(t)
 print("/tmp/seedprompts/%s.txt" % name)
